@@ -603,7 +603,19 @@ func (d *Driver) finishOp(op *Op, resp opResp) {
 	if op.obj != nil && resp.err == nil {
 		switch op.Kind {
 		case "create", "update":
-			op.obj.lastAckRev = op.ResRev
+			// an acknowledgement that arrives after the library's own per-operation time-out
+			// (max(H/2, 1s) for refreshes) has been given up on by the caller: it does not count
+			// as a write "whose response X has received"
+			to := d.plan.H / 2
+			if to < time.Second {
+				to = time.Second
+			}
+			if op.Kind == "update" && op.TRet-op.TInvoke >= to {
+				op.obj.lateAck = true
+			} else {
+				op.obj.lastAckRev = op.ResRev
+				op.obj.lateAck = false
+			}
 		}
 	}
 	op.ch <- resp
